@@ -15,7 +15,9 @@ echo "== baseline with change"; go test -vet=off -count=1 ./... 2>&1 | grep -v "
 cp "$DEMO" "/repo/$REL"
 echo "== demo with change (expect FAIL)"; go test -vet=off -count=1 -run TestSeededDemo ./$(dirname $REL)/ 2>&1 | tail -3
 rm -f "/repo/$REL"
+EVBAK=$(mktemp -d); cp -r /verif/evidence/. $EVBAK/
 for c in $CHECKS; do echo "== check $c"; (cd /verif && ./check $c 2>&1 | tail -6); done
+rm -rf /verif/evidence; mkdir -p /verif/evidence; cp -r $EVBAK/. /verif/evidence/; rm -rf $EVBAK   # evidence must come from the unchanged tree
 git checkout -- . ; rm -f "/repo/$REL"
 cp "$DEMO" "/repo/$REL"
 echo "== demo without change (expect ok)"; go test -vet=off -count=1 -run TestSeededDemo ./$(dirname $REL)/ 2>&1 | tail -2
